@@ -38,6 +38,27 @@ def contracts() -> dict:
     }
 
 
+V_E, V_F = "0.8.26+commit.verif", "0.8.27+commit.verif"  # E, A-D and F: two compilation units; F's sorts last
+
+
+def unit_contracts(name: str):
+    """(test contract, its `Tgt`, compiler version) of the unit of E resp. F: the invariant is `tgt.flag() == 0`; E's Tgt
+    has nop() only, F's has poke() { flag = 1 }."""
+    from .artifacts import selector
+
+    flag = Fn("flag()", [("PUSH", 0), "SLOAD", ("PUSH", 0), "MSTORE", ("PUSH", 32), ("PUSH", 0), "RETURN"], mutability="view")
+    mut = Fn("nop()", ["STOP"]) if name == "E" else Fn("poke()", [("PUSH", 1), ("PUSH", 0), "SSTORE", "STOP"])
+    tgt = Contract("Tgt", [mut, flag], filename="src/Tgt.sol")
+    tinit = tgt.creation()
+    setup = [("PUSHN", 2, len(tinit)), ("PUSHL", "tinit"), ("PUSH", 0x100), "CODECOPY", ("PUSHN", 2, len(tinit)), ("PUSH", 0x100), ("PUSH", 0), "CREATE",
+             ("PUSH", 0), "SSTORE", "STOP"]
+    inv = [("PUSHN", 32, int(selector("flag()"), 16) << 224), ("PUSH", 0), "MSTORE",
+           ("PUSH", 32), ("PUSH", 0x40), ("PUSH", 4), ("PUSH", 0), ("PUSH", 0), ("PUSH", 0), "SLOAD", ("PUSH", 0xFFFFFF), "CALL", "POP",
+           ("PUSH", 0x40), "MLOAD", ("PUSHL", "bad"), "JUMPI", "STOP", ("LABEL", "bad")] + panic(1)
+    test = Contract(name, [Fn("setUp()", setup), Fn("invariant_flag()", inv)], filename=f"test/{name}.t.sol", data=[("MARK", "tinit"), ("RAW", tinit)])
+    return test, tgt, (V_E if name == "E" else V_F)
+
+
 class _NoForge:
     @staticmethod
     def run(cmd, *a, **k):
@@ -53,6 +74,15 @@ def run_main(root: Path, project: list[str], argv: list[str]):
     for name in project:
         d = root / "out" / f"{name}.t.sol"
         d.mkdir(parents=True, exist_ok=True)
+        if name in ("E", "F"):
+            test, tgt, ver = unit_contracts(name)
+            short = ver.split("+")[0]
+            for c, path in ((test, d / f"{name}.{short}.json"), (tgt, root / "out" / "Tgt.sol" / f"Tgt.{short}.json")):
+                j = c.json()
+                j["metadata"]["compiler"]["version"] = ver
+                path.parent.mkdir(parents=True, exist_ok=True)
+                path.write_text(json.dumps(j))
+            continue
         (d / f"{name}.json").write_text(json.dumps(cs[name].json()))
     (root / "out").mkdir(parents=True, exist_ok=True)
     handlers = {sig: signal.getsignal(sig) for sig in (signal.SIGINT, signal.SIGTERM)}
@@ -65,6 +95,8 @@ def run_main(root: Path, project: list[str], argv: list[str]):
                 result = hmain._main(["--root", str(root), "--no-status"] + list(argv))
             except SystemExit as e:
                 raise MachineryError(f"halmos._main{argv} exited with {e.code}: {sink.getvalue()[-800:]}") from e
+            except Exception as e:  # noqa: BLE001 - an exception out of _main is an observation (the run has no exit code)
+                result = types.SimpleNamespace(exitcode=f"{type(e).__name__}: {e}", test_results={})
     finally:
         hmain.subprocess = real_subprocess
         for sig, h in handlers.items():
@@ -80,7 +112,10 @@ def replay(rec: dict, root: Path) -> list[tuple[str, str]]:
     argv = list(rec["argv"]) + (["--depth", str(DEPTH)] if rec["depth"] else [])
     result, stdout, logs = run_main(root, project, argv)
     out = []
-    if result.exitcode != rec["exitcode"]:
+    if not isinstance(result.exitcode, int):
+        out.append(("verdicts", f"_main raised {result.exitcode}"))
+        out.append(("exit", f"_main raised {result.exitcode}, specification: exit code {rec['exitcode']}"))
+    elif result.exitcode != rec["exitcode"]:
         out.append(("exit", f"exit code {result.exitcode}, specification {rec['exitcode']}"))
     want = rec["results"] if isinstance(rec["results"], dict) else {}
     got = {}
@@ -128,10 +163,13 @@ def phase(chk, tier: str, clauses: set, label: str) -> None:
                 raise MachineryError(f"design mutation {cfg} is not refuted by {inv}: {m.violated}")
             chk.count("mainrun_design_mutations_refuted")
         recs = [x for x in r.records if isinstance(x, dict) and "argv" in x]
-        if len(recs) != 288:
-            raise MachineryError(f"MainRun.tla: {len(recs)} terminal states, expected 288")
+        if len(recs) != 1280:
+            raise MachineryError(f"MainRun.tla: {len(recs)} terminal states, expected 1280")
         rnd = random.Random(chk.seed * 131 + 5)
-        pick = recs if tier != "quick" else [x for x in recs if x["depth"] and len(x["project"]) >= 2] + rnd.sample(recs, 60)
+        # quick: the histories in which process-wide state matters (two cut tests; the two units with a contract `Tgt`) and a sample
+        must = [x for x in recs if (x["depth"] and {"A", "B"} <= set(x["project"]) and len(x["project"]) <= 3 and not x["argv"])
+                or ({"E", "F"} <= set(x["project"]) and len(x["project"]) <= 3 and not x["depth"] and (not x["argv"] or "E|F" in x["argv"]))]
+        pick = recs if tier != "quick" else must + rnd.sample(recs, 50)
         seen = set()
         for rec in pick:
             k = (tuple(sorted(rec["project"])), tuple(rec["argv"]), rec["depth"])
